@@ -94,6 +94,11 @@ def _draw(name, pc, tc, n, aux):
         s = pc.maximally_mixed_state(n)
         out, l2p = s.measure(aux)
         return ("bits", [int(x) for x in out])
+    if name == "coinfix":
+        gs, ps, r, obs = aux
+        s = sut.backend("numpy").mk_state(gs, ps, r)
+        out, l2p = s.measure(obs)
+        return ("fixbits", [int(x) for x in out])
     # torch samplers
     if name == "t:rpair":
         g1, g2 = tc.utils.random_pair(n)
@@ -124,7 +129,8 @@ TABLE = [
     ("rcliff", 2, 2), ("rcliff", 4, 1), ("rpauli", 3, 1), ("rpair", 2, 3), ("rpair", 5, 1),
     ("rcs", 2, 5), ("rcs", 3, 1), ("rcs", 4, 1), ("rps", 3, 1), ("rbs", 3, 2), ("rbs", 6, 1),
     ("onsite", 2, 2), ("onsite", 4, 1), ("global", 2, 3), ("global", 3, 1), ("brickwall", 2, 2), ("brickwall", 4, 1),
-    ("gate", 2, 3), ("gate", 1, 1), ("coin", 4, 2),
+    ("gate", 2, 3), ("gate", 1, 1), ("coin", 4, 2), ("coinfix", 2, 1), ("coinfix", 3, 2), ("coinfix", 4, 2),
+    ("coinfix", 1, 1),
     ("t:rcm", 1, 2), ("t:rcm", 2, 12), ("t:rcm", 3, 8), ("t:rpm", 2, 3), ("t:rpair", 2, 2), ("t:rcliff", 3, 2),
     ("t:rcs", 2, 2), ("t:rpauli", 2, 1), ("t:rps", 2, 1), ("t:rpm", 3, 1), ("t:rcs", 3, 1), ("t:rpair", 3, 1),
     ("t:rcm", 4, 2), ("rps", 2, 3), ("rps", 1, 1), ("t:rps", 2, 1), ("rpm", 6, 1), ("rpauli", 6, 1), ("rcs", 5, 1),
@@ -148,6 +154,17 @@ def gen_config(rng, tier):
     if sampler == "gate":
         cfg["dir"] = rng.choice(["forward", "backward", "alternate"])
         cfg["steps"] = 200
+    if sampler == "coinfix":
+        # one fixed (mixed or pure) state per block, measured again and again on fresh copies:
+        # every undetermined outcome must be a coin, not a function of the state
+        cfg["state_entropy"] = rng.getrandbits(64)
+        cfg["r"] = rng.randrange(0, n + 1)
+        cfg["ctor"] = rng.choice(["rcs", "rcs", "mixed", "setr"])
+        order = list(range(n))
+        rng.shuffle(order)
+        cfg["order"] = order[:rng.randrange(1, n + 1)]
+        cfg["basis"] = rng.choice(["Z", "Z", "X", "rand"])
+        cfg["steps"] = 160
     if sampler in ("gate", "onsite", "global", "brickwall"):
         # fault / configuration injected before the draws: the object is copied, or a compile()
         # is attempted first (documented to raise for random gates: a rejected operation)
@@ -182,6 +199,30 @@ class RunClass(Run):
             self.aux = (pc.CliffordGate(*range(n)), cfg["dir"])
         elif s == "coin":
             self.aux = sut.mk_list([(tuple(3 if i == q else 0 for i in range(n)), 0) for q in range(n)])
+        elif s == "coinfix":
+            seams.seed_all(cfg["state_entropy"])
+            if cfg["ctor"] == "mixed":
+                st = pc.maximally_mixed_state(n)
+            elif cfg["ctor"] == "setr":
+                st = pc.random_clifford_state(n).set_r(cfg["r"])
+            else:
+                st = pc.random_clifford_state(n, cfg["r"])
+            letter = {"Z": 3, "X": 1}.get(cfg["basis"])
+            obs = []
+            import random as _r
+            rr = _r.Random(cfg["state_entropy"])
+            for q in cfg["order"]:
+                a = letter or rr.choice((1, 2, 3))
+                obs.append((tuple(a if i == q else 0 for i in range(n)), rr.choice((0, 2))))
+            model = rm.alpha(st.gs, st.ps, st.r, n)
+            self.undet = []
+            m = model
+            for k, P in enumerate(obs):
+                if m.eigenvalue(P) is None:
+                    self.undet.append(k)
+                    m, _ = m.project(P, 1)
+            self.seen = [set() for _ in obs]
+            self.aux = (np.array(st.gs).copy(), np.array(st.ps).copy(), int(st.r), sut.mk_list(obs, n))
         prep = cfg.get("prep", "none")
         if prep != "none" and self.aux is not None:
             obj = self.aux[0]
@@ -255,6 +296,15 @@ class RunClass(Run):
                 self.bin("pair_joint", (p1[0], p2[0]))
                 self.bin("pair_first", p1[0])
             return (p1[0], p2[0])
+        if kind == "fixbits":
+            bits = tuple(raw[1])
+            if any(b not in (0, 1) for b in bits) or len(bits) != len(self.seen):
+                self.bad("coin_format", bits=list(bits))
+            for k, b in enumerate(bits):
+                self.seen[k].add(b)
+            for k in self.undet:
+                self.bin("fixcoin", bits[k])
+            return bits + (self.count,)
         if kind == "bits":
             bits = tuple(raw[1])
             if any(b not in (0, 1) for b in bits) or len(bits) != n:
@@ -352,6 +402,14 @@ class RunClass(Run):
         k = self.oracle_steps
         d = len(self.distinct)
         need = None
+        if s == "coinfix" and k >= 100:
+            self.probes["coin_randomness_judged"] += 1
+            for pos in self.undet:
+                if len(self.seen[pos]) < 2:
+                    raise Violation("c16.coin_not_random", {"sampler": s, "n": n, "position": pos, "calls": k,
+                                                            "always": sorted(self.seen[pos]), "ctor": self.cfg["ctor"],
+                                                            "r": self.cfg["r"], "order": self.cfg["order"],
+                                                            "basis": self.cfg["basis"]})
         if s == "gate" and k >= 150:
             need = {1: 12, 2: int(0.7 * k)}.get(n)
         elif s in ("global", "brickwall") and n == 2 and k >= 150:
@@ -376,7 +434,8 @@ EXPECTED_BINS = {
     ("class", 1, "pauli"): 6, ("class", 2, "pauli"): 36, ("class", 3, "pauli"): 216, ("sign", 1, "any"): 4,
     ("state", 2, "cliffstate"): 60, ("state", 2, "productstate"): 36,
     ("state", 1, "pstate"): 6, ("state", 2, "pstate"): 36,
-    ("bits", 3, "rbs"): 8, ("coins", 4, "coin"): 16, ("pair_joint", 2, "pair"): 120, ("pair_first", 2, "pair"): 15,
+    ("bits", 3, "rbs"): 8, ("coins", 4, "coin"): 16, ("fixcoin", 1, "coinfix"): 2, ("fixcoin", 2, "coinfix"): 2,
+    ("fixcoin", 3, "coinfix"): 2, ("fixcoin", 4, "coinfix"): 2, ("pair_joint", 2, "pair"): 120, ("pair_first", 2, "pair"): 15,
 }
 
 
@@ -479,4 +538,4 @@ def batch_filter(rec):
 
 # reach guard: a full-size batch in which one of these never fired means the workload or the
 # harness has rotted (exit 2, never a pass)
-REQUIRED_REACH = ['resampling_judged', 'reseed', 'stream_draw']
+REQUIRED_REACH = ['resampling_judged', 'coin_randomness_judged', 'reseed', 'stream_draw']
